@@ -159,6 +159,7 @@ EvalList(le, env) ==
     CASE le[1] = "flds"  -> Lst(EvalFlds(le[2], env))                                          \* [a_i, a_j, ..]
       [] le[1] = "rep"   -> LET x == Eval(le[2], env) IN                                       \* [e] * (NF - 1)
                             IF IsErr(x) THEN Err ELSE Lst([k \in 1..(IF Len(env.a) > 0 THEN Len(env.a) - 1 ELSE 0) |-> x])
+      [] le[1] = "lits"  -> Lst([k \in 1..Len(le[2]) |-> Str(le[2][k])])                          \* a list of string literals
       [] le[1] = "empty" -> Lst(<<>>)
       [] OTHER -> Err
 
